@@ -281,3 +281,5 @@ func RunReplay(h func()) (failures []string, panicked interface{}, diverged stri
 
 func SetFiles(names []string)                              {}
 func FileSet(name string, words []uint64, cutBytes uint64) {}
+
+func HookCall(fullName string, f func()) {}
